@@ -15,7 +15,7 @@ INFO = {
     'bounds': {
         'quick': 'teams: list of 0-3 / tuple / None / dict / str / int; team: list of 0-2 / tuple / rating / None / int / str; player: own rating / '
                  'the rating class of each of the four other models / None / int / float / str / list; ranks, scores: None / list of 0-4 / tuple / int 0 / '
-                 'int / str / dict; elements: int / 0 / negative float / bool / str / None / complex / list',
+                 'int / str / dict; elements: int / 0 / negative float / bool / an int beyond the float range / str / None / complex / list',
         'thorough': 'teams up to 4, teams of up to 3 players',
     },
     'outside': ['kinds not on the menus (numpy scalars, objects with raising __bool__, subclasses of list)'],
@@ -26,8 +26,9 @@ INFO = {
 
 PLAYER_MENU_Q = ['own', 'foreign0', 'none', 'int', 'float', 'str', 'list']
 PLAYER_MENU_T = ['own', 'foreign0', 'foreign1', 'foreign2', 'foreign3', 'none', 'int', 'float', 'str', 'list']
-ELEM_MENU = ['int', 'zero', 'negfloat', 'bool', 'str', 'none', 'complex', 'list']
-NUMERIC = ('int', 'zero', 'negfloat', 'bool')
+ELEM_MENU = ['int', 'zero', 'negfloat', 'bool', 'bigint', 'str', 'none', 'complex', 'list']
+NUMERIC = ('int', 'zero', 'negfloat', 'bool', 'bigint')
+BIGINT = -(10 ** 400)   # a valid int that no float can hold (float(), math.isnan(), math.isfinite() raise OverflowError on it)
 
 
 def jobs(tier):
@@ -77,7 +78,7 @@ def _menus(key, tier, registry):
         return kinds.Lazy('teams', menu)
 
     def elem(name):
-        fac = {'int': lambda: 3, 'zero': lambda: 0, 'negfloat': lambda: -2.5, 'bool': lambda: True, 'str': lambda: 'a', 'none': lambda: None,
+        fac = {'int': lambda: 3, 'zero': lambda: 0, 'negfloat': lambda: -2.5, 'bool': lambda: True, 'bigint': lambda: BIGINT, 'str': lambda: 'a', 'none': lambda: None,
                'complex': lambda: 2j, 'list': lambda: [1]}
         return kinds.Lazy(name, [(lab, fac[lab]) for lab in ELEM_MENU])
 
@@ -205,7 +206,7 @@ def describe(obj):
 
 # completion of the positions the code never inspected (label None): the replay tries several, see COMPLETIONS
 DEFAULTS = {}
-WELLFORMED_COMPLETIONS = [{}, {'elem': 'bool'}, {'elem': 'negfloat'}, {'elem': 'zero'}]
+WELLFORMED_COMPLETIONS = [{}, {'elem': 'bool'}, {'elem': 'negfloat'}, {'elem': 'zero'}, {'elem': 'bigint'}]
 MALFORMED_COMPLETIONS = [{'elem': 'str'}, {'elem': 'none'}, {'player': 'int'}, {'player': 'foreign0'}, {'player': 'foreign1'}, {'player': 'foreign2'},
                          {'player': 'foreign3'}, {'player': 'none'}, {'team': 'none'}, {'team': 'list0'}, {'team': 'tuple'}]
 
@@ -252,7 +253,7 @@ def build_concrete(key, d, kind, registry):
                 'int': lambda: 2}[l]()
     if kind == 'elem':
         l = l or 'int'
-        return {'int': 3, 'zero': 0, 'negfloat': -2.5, 'bool': True, 'str': 'a', 'none': None, 'complex': 2j, 'list': [1]}[l]
+        return {'int': 3, 'zero': 0, 'negfloat': -2.5, 'bool': True, 'bigint': BIGINT, 'str': 'a', 'none': None, 'complex': 2j, 'list': [1]}[l]
     # vec
     l = l or 'None'
     if l.startswith('list'):
